@@ -312,6 +312,20 @@ def wide_fixed(kind, tlen):
     if kind == "set":
         a += [("conj", k) for k in ("k0", "k1", "a")] + [("disj", k) for k in ("k0", "k1", "a")]
     a += [("empty",), ("with-meta", "m1"), ("with-meta", "nil"), ("vary-meta",), ("into", "c")]
+    # one variadic call (conj / disj / dissoc / assoc with two or three operands): every ordered selection, so that an absent
+    # operand precedes a present one, an operand repeats, a later pair overrides an earlier one
+    ks = ("k0", "k1", "a")
+    if kind in SEQ_KINDS:
+        a += [("N", ("conj", x), ("conj", y)) for x in (0, 1, None) for y in (0, 1, None)]
+    if kind == "set":
+        for op in ("conj", "disj"):
+            a += [("N", (op, x), (op, y)) for x in ks for y in ks]
+            a += [("N", (op, x), (op, y), (op, z)) for x in ks for y in ks for z in ks if len({x, y, z}) == 3]
+    if kind == "map":
+        a += [("N", ("dissoc", x), ("dissoc", y)) for x in ks for y in ks]
+        a += [("N", ("dissoc", x), ("dissoc", y), ("dissoc", z)) for x in ks for y in ks for z in ks if len({x, y, z}) == 3]
+        a += [("N", ("assoc", x, 0), ("assoc", y, v)) for x in ks for y in ks for v in (1, None)]
+        a += [("N", ("conj", "e", x, 0), ("conj", "e", y, 1)) for x in ks for y in ks]
     if kind in T_WIDE:
         atoms, stale = T_WIDE[kind]
         for k in range(tlen + 1):
@@ -359,6 +373,10 @@ def model_op(kind, a, model, pool):
     """New model after action `a` (not transient compounds).  Raises Undef."""
     op = a[0]
     K = U.KEY
+    if op == "N":  # one variadic call = its operands applied left to right
+        for sa in a[1:]:
+            model = model_op(kind, sa, model, pool)
+        return model
     if op == "empty":
         return type(model)() if kind != "map" else {}
     if op in ("with-meta", "vary-meta"):
@@ -492,6 +510,18 @@ def impl_action(kind, a, val, model, pool, notes):
     """Apply action `a` to the real value.  Returns the result (exceptions propagate)."""
     op = a[0]
     K = U.KEY
+    if op == "N":
+        args = []
+        for sa in a[1:]:
+            if kind in SEQ_KINDS:
+                args.append(sa[1])
+            elif sa[0] == "assoc":
+                args += [K[sa[1]], sa[2]]
+            elif sa[0] == "conj" and kind == "map":
+                args.append(U.vec.v(K[sa[2]], sa[3]))
+            else:
+                args.append(K[sa[1]])
+        return getattr(U, a[1][0])(val, *args)
     if op in ("t", "ti"):
         t = U.transient(val)
         m = model
